@@ -412,6 +412,34 @@ impl<'a> G<'a> {
                 }
                 let fc = f[1];
                 note = Some(if fc == 11 || fc == 12 || hk == 3 { "@reject".into() } else { "@wf".into() });
+                if (fc == 11 || fc == 12) && self.r.chance(2, 3) {
+                    // FREEZE_AT_TIME proper: the time-and-interval object (g50v2, count 1) first, then one to three
+                    // freeze headers, accepted (g20v0) and rejected ones in any order: the response reports an
+                    // error if ANY header was rejected, also when the last one was accepted (S154)
+                    f.truncate(2);
+                    let bad_count = self.r.chance(1, 8);
+                    f.extend_from_slice(&[0x32, 0x02, 0x07, if bad_count { 2 } else { 1 }]);
+                    for _ in 0..(if bad_count { 2 } else { 1 }) {
+                        f.extend_from_slice(&self.r.below(1 << 40).to_le_bytes()[..6]);
+                        f.extend_from_slice(&(self.r.below(100000) as u32).to_le_bytes());
+                    }
+                    let mut rejected = bad_count;
+                    for _ in 0..self.r.range(1, 3) {
+                        match self.r.below(5) {
+                            0 | 1 => f.extend_from_slice(&[0x14, 0x00, 0x06]),
+                            2 => f.extend_from_slice(&[0x14, 0x00, 0x00, 0x01, 0x04]),
+                            3 => {
+                                f.extend_from_slice(&[0x16, 0x00, 0x06]);
+                                rejected = true;
+                            }
+                            _ => {
+                                f.extend_from_slice(&[0x1e, 0x00, 0x06]);
+                                rejected = true;
+                            }
+                        }
+                    }
+                    note = Some(if rejected { "@reject".into() } else { "@wf".into() });
+                }
             }
             27..=29 => {
                 f.push(if self.r.chance(1, 2) { 20 } else { 21 });
